@@ -355,6 +355,14 @@ NonOverlapConstraints::getCurrSubConstraintAlternatives(vpsc::Variables vs[])
 
     // Take the first in the list.
     ShapePairInfo& info = pairInfoList.front();
+    if (info.processed)
+    {
+        // Processed pairs are always moved to the back of the list, so
+        // seeing one at the front means every pair has been handled
+        // (including pairs for which no alternative was satisfiable).
+        _currSubConstraintIndex = pairInfoList.size();
+        return alternatives;
+    }
     if (pairInfoListSorted == false)
     {
         // Only need to compute if not sorted.
